@@ -49,6 +49,13 @@ CLAIMED = {
         text="Injected corruption of every exchanged container kind (list/set/dict mutations, inner level too) followed by continued operation; immutable containers must refuse.",
         note="'Copied' concerns the collection passed, not objects stored in it. Reference = the twin that never meets the misbehaving client.",
     ),
+    "C13": dict(
+        cat="fault_enumeration",
+        ref="DESIGN.md 4/C13",
+        technique="deterministic simulation with fault injection: for sampled (world, entry point, settings, cache flag) triples, an exception is injected at the k-th invocation of every user callback for every k; deep snapshot (structure, attribute-name sets, public values) before/after, clean re-run compared with the fault-free result",
+        text="Exhaustive enumeration of callback fault positions within each sampled triple (all k while N<=32), crash-consistency oracle: however the call ends, the graph is as before and a clean re-run gives the normal answer.",
+        note="Faults are exceptions from user callbacks only. Private attribute values are not compared, names are. Triples are sampled; fault positions within them are enumerated.",
+    ),
     "C17": dict(
         cat="exploration",
         ref="DESIGN.md 4/C17",
@@ -83,7 +90,7 @@ NOT_APPLICABLE = {
     "C16": "A text formatter of the current state; nothing a simulator controls enters it (DESIGN 4/C14-16).",
 }
 
-PENDING = {k: 'check not built yet in this commit (claimed in DESIGN.md; machinery in progress)' for k in ['C10','C11','C13']}
+PENDING = {k: 'check not built yet in this commit (claimed in DESIGN.md; machinery in progress)' for k in ['C10','C11']}
 
 
 def main():
